@@ -42,6 +42,7 @@ const (
 	pkHeldBlip = "held+blip" // upstream fails the held queries, recovers while calls are still running
 	pkFreeZone = "zone-mid"  // zone data changes after some calls completed, others still running
 	pkFailing  = "failing"   // upstream fails during the whole phase
+	pkHerd     = "herd"      // every answer of one name has just expired; all goroutines ask for that name at the same moment
 )
 
 type concCall struct {
@@ -94,6 +95,7 @@ type concCase struct {
 	phases     []*phaseInfo
 	counts     map[string]int64
 	anyFailure bool
+	herdName   string
 }
 
 var (
@@ -236,6 +238,30 @@ func (e *env) concCase(work string, idx int, rng *mrand.Rand) {
 			return
 		}
 	}
+	// Herd rounds: the clock steps so that every cached answer of one name has expired, then all goroutines ask for
+	// that name at once: one of them fetches, the others wait on the entry and receive the very same cached slices a
+	// moment later, while the first is still working with its copy of the result.
+	herd := c.names[rng.IntN(len(c.names))]
+	step := int64(1)
+	for k := 0; k < 3; k++ {
+		step = max(step, int64(minTTL(c.spec[herd][k].TTLs)))
+	}
+	rounds := 100
+	if c.work == "race" {
+		rounds = 10 // the race detector does not need the two goroutines to meet in time
+	}
+	for round := rounds; round > 0; round-- {
+		p := len(c.phases)
+		kinds = append(kinds, pkHerd)
+		c.ctl("advance", p, func(op *ctlOp) { op.D = step; c.clock.Advance(time.Duration(step) * time.Second) })
+		if round%3 == 0 {
+			c.changeZone(p)
+		}
+		c.herdName = herd
+		if !c.runPhase(p, pkHerd, rng) {
+			return
+		}
+	}
 	c.judge()
 	r.Eval(fmt.Sprintf("conc|%s|g%d|n%d", strings.Join(kinds, ","), c.G, len(c.names)))
 	c.counts["conc_cases"]++
@@ -271,7 +297,9 @@ func (c *concCase) runPhase(p int, kind string, rng *mrand.Rand) bool {
 	for g := range plans {
 		for n := 1 + rng.IntN(3); n > 0; n-- {
 			name := hot
-			if rng.IntN(3) == 0 {
+			if kind == pkHerd {
+				name, n = c.herdName, 1
+			} else if rng.IntN(3) == 0 {
 				name = c.names[rng.IntN(len(c.names))]
 			}
 			plans[g].names = append(plans[g].names, name)
@@ -283,12 +311,17 @@ func (c *concCase) runPhase(p int, kind string, rng *mrand.Rand) bool {
 	ctx, cancel := context.WithTimeout(context.Background(), 2*time.Minute) // watchdog only
 	defer cancel()
 	var wg sync.WaitGroup
+	start := make(chan struct{}) // herd: nobody calls before everybody is running
+	if kind != pkHerd {
+		close(start)
+	}
 	for g := range plans {
 		wg.Add(1)
 		go func() {
 			defer wg.Done()
 			defer bind(c.clock)()
 			lrng := mrand.New(mrand.NewPCG(plans[g].seed, uint64(g)))
+			<-start
 			for _, name := range plans[g].names {
 				rec := &concCall{Client: g, Phase: p, Name: name}
 				rec.Call = c.seq.Add(1)
@@ -311,6 +344,9 @@ func (c *concCase) runPhase(p int, kind string, rng *mrand.Rand) bool {
 				done <- rec
 			}
 		}()
+	}
+	if kind == pkHerd {
+		close(start)
 	}
 	completed, errs, arrived := 0, 0, 0
 	waitFor := func(cond func() bool) {
@@ -384,9 +420,13 @@ func (c *concCase) runPhase(p int, kind string, rng *mrand.Rand) bool {
 			return false
 		}
 	}
-	c.counts["conc_phases"]++
 	c.counts["conc_phases_"+kind]++
-	c.counts["conc_calls"] += int64(total)
+	if kind == pkHerd {
+		c.counts["conc_herd_calls"] += int64(total)
+	} else {
+		c.counts["conc_phases"]++
+		c.counts["conc_calls"] += int64(total)
+	}
 	return true
 }
 
@@ -528,6 +568,7 @@ func (c *concCase) judge() {
 				bad = true
 			}
 		default:
+			c.counts["conc_results_checked_as_sorted_copy_of_unsorted_answer"]++ // every name has 2..4 HTTPS records listed out of priority order
 			for k, v := range call.Vers {
 				switch v {
 				case verBad:
